@@ -25,9 +25,9 @@ struct Call
 };
 std::vector<Call> *calls;
 
-enum { P_MULTI_THREAD = 0, P_NEGATIVE, P_ZERO, P_NESTED, P_TYPE_MAX, P_PARTIAL_LAST_BLOCK, P_FROM_TASK, P_COUNT_GT_THREADS, P_PREFILL };
+enum { P_MULTI_THREAD = 0, P_NEGATIVE, P_ZERO, P_NESTED, P_TYPE_MAX, P_PARTIAL_LAST_BLOCK, P_FROM_TASK, P_COUNT_GT_THREADS, P_PREFILL, P_THROWING_BODY };
 const char *probe_names[] = {"call_executed_by_more_than_one_thread", "negative_count", "zero_count", "nested_call", "count_is_type_maximum",
-                             "last_block_partial", "call_from_inside_task", "count_far_above_thread_count", "scheduled_closures_ran", nullptr};
+                             "last_block_partial", "call_from_inside_task", "count_far_above_thread_count", "scheduled_closures_ran", "loop_with_a_throwing_body_planned", nullptr};
 const char *no_faults[] = {nullptr};
 const char *tyname[] = {"unsigned char", "short", "int", "unsigned", "long", "long long", "unsigned long long", "size_t"};
 const char *apiname[] = {"parallel_for", "parallel_foreach(container)", "parallel_foreach(iterators)", "parallel_in_blocks_of"};
@@ -113,6 +113,11 @@ void do_plan(int tier)
     c.from_task = c.nested_at < 0 && sim_plan(6) == 0;
     c.prefill = 0;
     c.prefill_block = 0;
+    c.throw_at = -1;
+    if ((lane == LANE_TBB || lane == LANE_DEBUG) && c.nested_at < 0 && !c.from_task && c.count > 0 && plan.ncalls > 1 && i + 1 < plan.ncalls && sim_plan(8) == 0) {
+      c.throw_at = (int)sim_plan((uint32_t)(c.count > 64 ? 64 : c.count));
+      sim_probe(P_THROWING_BODY);
+    }
     if (!c.from_task && lane != LANE_DEBUG && sim_plan(12) == 0)
       c.prefill = lane == LANE_OMP ? 1 + (int)sim_plan(6) : (sim_plan(2) ? 248 + (int)sim_plan(12) : 300 + (int)sim_plan(300));
     if (c.prefill && (lane == LANE_INTERNAL) && plan.init_threads > 1)
@@ -151,6 +156,8 @@ void describe(char *buf, size_t n)
                     apiname[c.inner_api], tyname[c.inner_itype], c.inner_count, c.inner_block);
     if (c.from_task)
       k += snprintf(buf + k, n - k, ", \"called_from_task_of\": %d", c.from_task_n);
+    if (c.throw_at >= 0)
+      k += snprintf(buf + k, n - k, ", \"body_throws_at\": %d", c.throw_at);
     if (c.prefill)
       k += snprintf(buf + k, n - k, ", \"scheduled_closures_before\": %d, \"workers_occupied_by_long_tasks\": %d", c.prefill, c.prefill_block);
     k += snprintf(buf + k, n - k, "}");
@@ -218,6 +225,17 @@ void c01_call_end(int h)
     }
   if (c.multi_thread)
     sim_probe(P_MULTI_THREAD);
+}
+
+void c01_call_aborted(int h)
+{
+  SimOracleScope os;
+  Call &c = (*calls)[(size_t)h];
+  sim_event(105, (uint64_t)h, (uint64_t)c.invocations);
+  c.returned = true;
+  // a loop that ended with its body's exception may have skipped indices; everything else still holds
+  if (c.active)
+    sim_fail("C01:returned-while-body-running", "call %d ended with an exception while %d invocations are still executing", h, c.active);
 }
 
 int c01_body(int h, long long idx)
